@@ -25,7 +25,115 @@ impl Command for TestCmd {
     }
 }
 
+/// script level: alias / unalias / remove_command / is_command_defined / function definitions / calls over a few names
+fn gen_script(r: &mut Rng) -> Value {
+    let pool = ["ka", "kb", "kc"];
+    let n = 3 + r.below(8);
+    let mut ops = vec![];
+    for _ in 0..n {
+        let name = r.pick(&pool).to_string();
+        let op = ["alias", "alias", "unalias", "unalias", "remove", "fn", "defined", "call"][r.below(8)];
+        ops.push(json!({"op": op, "name": name}));
+    }
+    json!({"kind": "script", "ops": ops})
+}
+
+enum Kind {
+    Alias(String),
+    Func(String),
+}
+
+fn run_script_level(input: &Value) -> Option<Value> {
+    use duckscript::runner;
+    use duckscript::types::runtime::Context;
+    let mut model: BTreeMap<String, Kind> = BTreeMap::new();
+    let mut fn_defined: Vec<String> = vec![];
+    let mut lines: Vec<String> = vec![];
+    let mut expect: Vec<(String, Option<String>)> = vec![];
+    for (i, op) in input["ops"].as_array()?.iter().enumerate() {
+        let n = op["name"].as_str()?.to_string();
+        let rv = format!("r{}", i);
+        match op["op"].as_str()? {
+            "alias" => {
+                lines.push(format!("{} = alias {} set v{}", rv, n, i));
+                if model.contains_key(&n) {
+                    // refused: the error result puts `false` into the output variable, nothing changes
+                    expect.push((rv, Some("false".to_string())));
+                } else {
+                    model.insert(n.clone(), Kind::Alias(format!("v{}", i)));
+                    expect.push((rv, Some("true".to_string())));
+                }
+            }
+            "fn" => {
+                // a name is defined as a function at most once, and only while it is free
+                if model.contains_key(&n) || fn_defined.contains(&n) {
+                    continue;
+                }
+                lines.push(format!("fn {}", n));
+                lines.push(format!("return f{}", i));
+                lines.push("end".to_string());
+                fn_defined.push(n.clone());
+                model.insert(n.clone(), Kind::Func(format!("f{}", i)));
+            }
+            "unalias" => {
+                lines.push(format!("{} = unalias {}", rv, n));
+                let is_alias = matches!(model.get(&n), Some(Kind::Alias(_)));
+                if is_alias {
+                    model.remove(&n);
+                }
+                expect.push((rv, Some(is_alias.to_string())));
+            }
+            "remove" => {
+                lines.push(format!("{} = remove_command {}", rv, n));
+                let existed = model.remove(&n).is_some();
+                expect.push((rv, Some(existed.to_string())));
+            }
+            "defined" => {
+                lines.push(format!("{} = is_command_defined {}", rv, n));
+                expect.push((rv, Some(model.contains_key(&n).to_string())));
+            }
+            _ => {
+                // a call (only of a name the model says is registered: an unknown command ends the run)
+                match model.get(&n) {
+                    Some(Kind::Alias(v)) => {
+                        lines.push(format!("{} = {}", rv, n));
+                        expect.push((rv, Some(v.clone())));
+                    }
+                    Some(Kind::Func(v)) => {
+                        lines.push(format!("{} = {}", rv, n));
+                        expect.push((rv, Some(v.clone())));
+                    }
+                    None => {}
+                }
+            }
+        }
+    }
+    let script = lines.join("\n");
+    let mut context = Context::new();
+    duckscriptsdk::load(&mut context.commands).ok()?;
+    match runner::run_script(&script, context, None) {
+        Ok(ctx) => {
+            for (k, v) in &expect {
+                if ctx.variables.get(k) != v.as_ref() {
+                    return Some(json!({"script": script, "what": "script-level registry operations disagree with the name table model", "variable": k, "model": v, "real": ctx.variables.get(k)}));
+                }
+            }
+            // what is registered at the end
+            for n in ["ka", "kb", "kc"] {
+                if ctx.commands.exists(n) != model.contains_key(n) {
+                    return Some(json!({"script": script, "what": "registered names at the end differ from the model", "name": n, "model": model.contains_key(n), "real": ctx.commands.exists(n)}));
+                }
+            }
+            None
+        }
+        Err(e) => Some(json!({"script": script, "error": e.to_string()})),
+    }
+}
+
 pub fn gen(r: &mut Rng) -> Value {
+    if r.chance(1, 3) {
+        return gen_script(r);
+    }
     let pool = ["a", "b", "c", "d", "e"];
     let n = 2 + r.below(9);
     let mut ops = vec![];
@@ -45,6 +153,9 @@ pub fn gen(r: &mut Rng) -> Value {
 }
 
 pub fn run(input: &Value) -> Option<Value> {
+    if input["kind"].as_str() == Some("script") {
+        return run_script_level(input);
+    }
     let mut real = Commands::new();
     // model: name -> id, alias -> name
     let mut names: BTreeMap<String, usize> = BTreeMap::new();
